@@ -97,7 +97,7 @@ def _invariant_signature(sig):
 
 
 def run(ck):
-    _timed(ck, 'build_and_audit', ck.build_and_audit)
+    _timed(ck, 'build_and_audit', ck.build_and_audit, extra_props=['C02Compile'])
     _timed(ck, 'corpus', run_corpus, ck)
 
     # ordering algorithms: correspondence of the real functions with the Lean model (the colleague's suite); its direct
